@@ -31,9 +31,13 @@ class CS:
         self.pos, self.mom = pos, None
 
 
-def metric_adapters(kind, fails):
+def metric_adapters(kind, fails, offset=None):
+    """offset=None: moderate offsets, tight tolerance.  offset=1e8: positions far from the origin relative to their spread (the property's
+    quantifier): the pooled estimate must still agree with an extended-precision reference to 1e-5 (centred / pairwise-difference updates do,
+    uncentred second-moment formulas lose every digit)"""
     rng = np.random.default_rng(7)
-    X = rng.normal(size=(24, 3)) * np.array([1.0, 3.0, 0.2]) + np.array([100.0, -5.0, 0.0])
+    X = rng.normal(size=(24, 3)) * np.array([1.0, 3.0, 0.2]) + (np.array([100.0, -5.0, 0.0]) if offset is None else np.array([offset, -offset, 3 * offset]))
+    rtol, atol = (1e-8, 1e-10) if offset is None else (1e-5, 1e-7)
     cls = A.OnlineVarianceMetricAdapter if kind == "variance" else A.OnlineCovarianceMetricAdapter
     splits = [(24,), (12, 12), (2, 22), (8, 8, 8), (2, 3, 19), (19, 3, 2), (6, 6, 6, 6), (1, 1, 1, 21), (5, 1, 7, 11)]
     for reg in ((5, 1e-3), (0, 1e-3), (3, 0.5)):
@@ -60,17 +64,19 @@ def metric_adapters(kind, fails):
                 fails.append(f"{cls.__name__} split {split} reg {reg}: raised {type(e).__name__}: {e}")
                 continue
             n = 24
+            XL = X.astype(np.longdouble)
+            XC = (XL - XL.mean(axis=0)).astype(np.float64) if offset is not None else X
             if kind == "variance":
-                ref = X.var(axis=0, ddof=1)
+                ref = XC.var(axis=0, ddof=1)
                 if reg[0]:
                     ref = ref * n / (reg[0] + n) + reg[1] * reg[0] / (reg[0] + n)
                 got = 1.0 / tr.system.metric.diagonal
             else:
-                ref = np.cov(X.T, ddof=1)
+                ref = np.cov(XC.T, ddof=1)
                 ref = ref * n / (reg[0] + n) + np.eye(3) * reg[1] * reg[0] / (reg[0] + n)
                 got = tr.system.metric.inv.array
-            if not np.allclose(got, ref, rtol=1e-8, atol=1e-10):
-                fails.append(f"{cls.__name__} split {split} reg {reg}: estimate differs from pooled numpy reference by {np.max(np.abs(got - ref)):.3e}")
+            if not np.allclose(got, ref, rtol=rtol, atol=atol):
+                fails.append(f"{cls.__name__} split {split} reg {reg}{'' if offset is None else f' offset {offset:g}'}: estimate differs from pooled reference by {np.max(np.abs(got - ref)):.3e}")
             for cs, r in zip(chains, rngs):
                 if not (isinstance(cs.mom, tuple) and cs.mom[1] == id(cs) and cs.mom[2] == id(r) and cs.mom[3] is tr.system.metric):
                     fails.append(f"{cls.__name__} split {split}: momentum not refreshed with own rng under the new metric")
@@ -151,6 +157,9 @@ def main():
         metric_adapters("variance", fails)
     if kind in ("covariance", "all"):
         metric_adapters("covariance", fails)
+    if kind in ("offsets", "all"):
+        metric_adapters("variance", fails, offset=1e8)
+        metric_adapters("covariance", fails, offset=1e8)
     if kind in ("dual", "all"):
         dual(fails)
     if fails:
